@@ -319,6 +319,32 @@ def cases(seed, tier):
         cs.append(mk_case(f'g{n}', 'pycmp', '==', txt(a), txt(b)))
         n += 1
     dist['equal_value_pairs'] = n - k0
+    k0 = n
+    # two EXACT quotients with different denominators (coprime, one dividing the other, equal), all
+    # four arithmetic operators and the comparisons: the Div x Div branches of the simplifier
+    # (added after seeded mutant C18-m3: Div.__add__ cross-multiplication for coprime denominators)
+    def exact_div(fam):
+        b = rng.choice(fam)
+        e = rng.randint(2, 24)
+        d = rng.choice([2, 3, 5, 7, 9, 11, 13, 4, 6, 10])
+        k = (-pow(b, e, d)) % d
+        if rng.random() < 0.3:
+            k += d * rng.randint(1, 5)
+        num = ('+', k, ('^', b, e)) if k else ('^', b, e)
+        if rng.random() < 0.25:
+            num = ('*', rng.choice([2, 3, 5]), num)
+        return ('/', num, d)
+    for _ in range(700 * mult):
+        fam = rng.choice(FAMILIES)
+        a, b = exact_div(fam), exact_div(fam if rng.random() < 0.7 else rng.choice(FAMILIES))
+        try:
+            value(a), value(b)
+        except NoValue:
+            continue
+        op = rng.choice(['+', '+', '-', '*', '<', '=='])
+        cs.append(mk_case(f'g{n}', 'pycmp' if op in ('<', '==') else 'pyop', op, txt(a), txt(b)))
+        n += 1
+    dist['exact_quotient_pairs'] = n - k0
     return cs, dist
 
 
